@@ -47,6 +47,12 @@ def passes_through(ctx: Ctx, wrapper: str, callee_name: str, view: str) -> None:
 
 
 def check(ctx: Ctx) -> None:
+    _check(ctx)
+    from ..engines.typestate import check_wrappers
+    check_wrappers(ctx, ['pad', 'cutoff', 'scale', 'set_channel'])
+
+
+def _check(ctx: Ctx) -> None:
     p = ctx.p
     eff = Effects(p)
     ctx.explanation = (
